@@ -231,3 +231,74 @@ for _o in DISTINCT:
             c.returns(lambda a, r: V.INSTANT_MIN_DAYS <= r[0] <= r[1] <= V.INSTANT_MAX_DAYS)
 
     _mk_range()
+
+
+# ------------------------------------------------------------------------------------------ the Gregorian fast paths (used for every ISO date)
+GREG = "pyoda_time.calendars._gregorian_year_month_day_calculator:_GregorianYearMonthDayCalculator."
+
+
+def _py_leap(y):
+    return y % 4 == 0 and (y % 100 != 0 or y % 400 == 0)
+
+
+def _py_dim(y, m):
+    return (31, 29 if _py_leap(y) else 28, 31, 30, 31, 30, 31, 31, 30, 31, 30, 31)[m - 1]
+
+
+def _py_soy(y):
+    p = y - 1
+    return 365 * p + p // 4 - p // 100 + p // 400 + 1 - S.RD_UNIX
+
+
+def _validate_domain():
+    # every year of the range and two beyond each end, every month 0..13, every day 0..32
+    return [{"year": y, "month": m, "day": d} for y in range(-10000, 10002) for m in range(0, 14) for d in (0, 1, 20, 21, 27, 28, 29, 30, 31, 32)]
+
+
+@contract(GREG + "_validate_gregorian_year_month_day", "C01", "C02", name="[ISO] Gregorian fast-path validation accepts exactly the dates of the proleptic Gregorian calendar in years -9998..9999 (every year x month x boundary day)")
+def _(c):
+    c.arg("year", Int()).arg("month", Int()).arg("day", Int())
+    c.ground = _validate_domain
+    c.ground_chunks = 16
+    c.ground_interp_stride = 99991
+    ok = lambda a: -9998 <= a.year <= 9999 and 1 <= a.month <= 12 and 1 <= a.day <= _py_dim(a.year, a.month)  # noqa: E731
+    c.returns(lambda a, r: r is None, when=ok)
+    c.raises(ValueError, when=lambda a: not ok(a))
+
+
+def _days_domain():
+    lo, hi = _py_soy(-9998), _py_soy(10000) - 1
+    return [{"days_since_epoch": d} for d in range(lo - 2, hi + 3)]
+
+
+def _py_date_of(days):
+    # proleptic Gregorian date of a day number by the published 400-year-cycle arithmetic
+    y = (days + S.RD_UNIX - 1) // 146097 * 400 + 1
+    while _py_soy(y + 1) <= days:
+        step = max(1, (days - _py_soy(y + 1)) // 366)
+        y += step
+    while _py_soy(y) > days:
+        y -= 1
+    doy = days - _py_soy(y)
+    m = 1
+    while doy >= _py_dim(y, m):
+        doy -= _py_dim(y, m)
+        m += 1
+    return y, m, doy + 1
+
+
+@contract(GREG + "_get_gregorian_year_month_day_calendar_from_days_since_epoch", "C01", "C02", name="[ISO] Gregorian fast-path day -> date: the proleptic Gregorian date of EVERY day number of the supported range (ISO ordinal), ValueError outside it")
+def _(c):
+    c.arg("days_since_epoch", Int())
+    c.ground = _days_domain
+    c.ground_chunks = 16
+    c.ground_interp_stride = 999983
+    c.allow_mutation = cache_ok
+    lo, hi = _py_soy(-9998), _py_soy(10000) - 1
+
+    def post(a, r):
+        y, m, d = _py_date_of(a.days_since_epoch)
+        return (r._year, r._month, r._day, int(r._calendar_ordinal)) == (y, m, d, 0)
+
+    c.returns(post, when=lambda a: lo <= a.days_since_epoch <= hi)
+    c.raises(ValueError, when=lambda a: not (lo <= a.days_since_epoch <= hi))
